@@ -157,7 +157,10 @@ def run_aead(case, rec):
     enc = sym.lib_new(spec)
     for a in aad:
         enc.update(a)
-    if spec["mode"] == "SIV" or spec.get("one_shot", True) and len(pt) % 3 == 0:
+    if len(pt) == 0 and spec["mode"] in ("GCM", "EAX", "CCM", "ChaCha20_Poly1305") and total_aad % 2:
+        # MAC-only use (documented: update() ... digest()): no encrypt() call at all
+        ct, tag = b"", enc.digest()
+    elif spec["mode"] == "SIV" or spec.get("one_shot", True) and len(pt) % 3 == 0:
         ct, tag = enc.encrypt_and_digest(pt)
     else:
         ct = enc.encrypt(pt)
